@@ -40,8 +40,8 @@ def run(ck, F):
     for g in groups:
         byname[C03._gname(g)] = g
     env = byname.get("envelope_name")
-    hdr = byname.get("{envelope_name}Header")
-    body = byname.get("{envelope_name}Body")
+    hdr = byname.get("{}Header")
+    body = byname.get("{}Body")
     if not (env and hdr and body):
         ck.undecided("R1", "groups", "-", f"envelope struct templates not recognised: {sorted(byname)}")
         return
@@ -106,7 +106,7 @@ def run(ck, F):
             ok_pf = pf_s == "Some⟨soap_operation.body.in_namespace⟩.abbreviation"
             (ck.ok if ok_pf else ck.violation)("R2", "prefix", e.site, f"Body member prefix = {pf_s[:80]}" + ("" if ok_pf else " — not the body element's namespace"), fn="write_soap_operation")
         holes = [og.nf_str(CE.expand(h[0])) for h in e.holes()]
-        ty_ok = any(h.startswith("to_pascal_case(") and "xml_name(soap_operation.body.rust_type)" in h for h in holes[1:])
+        ty_ok = any(_is_struct_of(CE.expand(h[0]), "soap_operation.body.rust_type") for h in e.holes()[1:])
         mod_ok = (not has_ns) or any(h == "Some⟨soap_operation.body.in_namespace⟩.rust_mod_name" for h in holes[1:])
         (ck.ok if ty_ok and mod_ok else ck.violation)("R2", f"type:{tag}", e.site,
                                                        "Body member type = <module of the element's namespace>::PascalCase(element name)" if ty_ok and mod_ok else
@@ -134,8 +134,9 @@ def run(ck, F):
             ok_pf = pf_s == f"Some⟨each({HS}).1.in_namespace⟩.abbreviation"
             (ck.ok if ok_pf else ck.violation)("R3", "prefix", e.site, f"Header member prefix = {pf_s[:80]}" + ("" if ok_pf else " — not the element's namespace"), fn="write_soap_operation")
         holes = [og.nf_str(CE.expand(h[0])) for h in e.holes()]
-        nm_ok = holes and holes[0] == f"rename_keywords(to_snake_case(each({HS}).0))"
-        ty_ok = any(h.startswith("to_pascal_case(") and f"xml_name(each({HS}).1.rust_type)" in h for h in holes[1:])
+        nch, nroot = og.sanitiser_chain(CE.expand(e.holes()[0][0])) if e.holes() else ([], None)
+        nm_ok = bool(e.holes()) and "to_snake_case" in nch and nch[0] == "rename_keywords" and og.nf_str(nroot) == f"each({HS}).0"
+        ty_ok = any(_is_struct_of(CE.expand(h[0]), f"each({HS}).1.rust_type") for h in e.holes()[1:])
         opt_ok = "Option<" in e.skeleton()
         (ck.ok if nm_ok and ty_ok and opt_ok else ck.violation)("R3", f"member:{tag}", e.site,
                                                                "Header member: field name from the part name, type Option<PascalCase(element)>" if nm_ok and ty_ok and opt_ok else
@@ -168,11 +169,11 @@ def run(ck, F):
             ck.violation("R4", f"{short}:one-fn", sigs[0].site if sigs else "-", f"{short}: {len(sigs)} `pub async fn` templates under conditions {sorted(conds)}", fn=short)
         for e in sigs:
             nm = og.nf_str(CE.expand(e.holes()[0][0]))
-            want = "to_snake_case(operation_name)"
-            if nm == want:
+            nch, nroot = og.sanitiser_chain(CE.expand(e.holes()[0][0]))
+            if "to_snake_case" in nch and og.nf_str(nroot) == "operation_name":
                 ck.ok("R4", f"{short}:fn-name", e.site, f"{short}: method name = {nm}", fn=short)
             else:
-                ck.violation("R4", f"{short}:fn-name", e.site, f"{short}: method name is {nm}, not {want}", fn=short)
+                ck.violation("R4", f"{short}:fn-name", e.site, f"{short}: method name is {nm}, not the snake_case form of the operation name", fn=short)
     # ---- R5
     evs = [e for e in X.events.get(OP_EMITTERS[0], []) if e.kind == "emit"]
     body_lines = [e.skeleton().strip() for e in evs if not re.match(r"^\s*pub async fn", e.skeleton())]
@@ -200,6 +201,12 @@ def run(ck, F):
     else:
         ck.violation("R5", "location", "-", "new() does not initialise `location` from the service's location")
     rule_resolution(ck, F)
+
+
+def _is_struct_of(nf, node_type_nf_str):
+    """nf = PascalCase(type name) of the XML name of the given node's rust_type"""
+    names, root = og.spine(nf)
+    return "to_pascal_case" in names and "xml_name" in names and og.nf_str(root) == node_type_nf_str
 
 
 def _pair_attrs(g):
